@@ -115,36 +115,46 @@ Example C13_ack_in_window_example :
 Proof. vm_compute. repeat split; reflexivity. Qed.
 
 (* (3b) Several closers of ONE channel.  n + 1 goroutines run Channel.Close on the same logical channel (Conn.Close
-   calls the same function); a schedule is any list of closer indices.  In EVERY reachable state: nobody has panicked,
-   the client-side teardown (unregister, close and drain the queues) was started at most once, every closer that has
-   returned returned nil / its own error list (code 0 / 1) or ErrChannelClosed (code 2); as long as a closer has not
-   returned some closer can move (no deadlock), and no run has more than 9 moves per closer; once all have returned
-   EXACTLY ONE has performed the teardown and returned its own result, all n others report ErrChannelClosed, the
-   channel is closed and unregistered (once), no lock is held or requested. *)
-Theorem C13_concurrent_close : forall left n ls,
-  let s := cexec (cinit true left (S n)) ls in
-  (c_panic s = false /\ c_unregs s <= 1 /\
+   calls the same function); a schedule is any list of closer indices.  The code as it is: closed check under the read
+   lock, then an atomic compare-and-swap of `closing` that only the first closer passes (with or without the later
+   re-check of `closed` under the write lock: it is never reached with `closed` set).  In EVERY reachable state: nobody
+   has panicked, at most one teardown packet was written, the client-side teardown (unregister, close and drain the
+   queues) was started at most once, every closer that has returned returned nil / its own error list (code 0 / 1) or
+   ErrChannelClosed (code 2); as long as a closer has not returned some closer can move (no deadlock), and no run has
+   more than 10 moves per closer; once all have returned EXACTLY ONE has performed the teardown and returned its own
+   result, all n others report ErrChannelClosed, exactly one teardown packet was written, the channel is closed and
+   unregistered (once), no lock is held or requested. *)
+Theorem C13_concurrent_close : forall recheck left n ls,
+  let s := cexec (cinit true recheck left (S n)) ls in
+  (c_panic s = false /\ c_unregs s <= 1 /\ c_teardowns s <= 1 /\
    (forall i c, nth_error (c_pcs s) i = Some (CDone c) -> c = 2 \/ c = (if left then 1 else 0))) /\
   (all_returned s = false -> exists i s', cstep s i = Some s') /\
   (all_returned s = true ->
      cnt is_win (c_pcs s) = 1 /\ cnt lost (c_pcs s) = Z.of_nat n /\
-     c_unregs s = 1 /\ c_registered s = false /\ c_closed s = true /\ c_wheld s = false /\ c_pending s = 0) /\
-  (forall ls' s', crun_eff (cinit true left (S n)) ls' = Some s' -> Z.of_nat (length ls') <= 9 * Z.of_nat (S n)).
+     c_unregs s = 1 /\ c_teardowns s = 1 /\ c_registered s = false /\ c_closed s = true /\ c_wheld s = false /\ c_pending s = 0) /\
+  (forall ls' s', crun_eff (cinit true recheck left (S n)) ls' = Some s' -> Z.of_nat (length ls') <= 10 * Z.of_nat (S n)).
 Proof. exact concurrent_close. Qed.
 
-(* the same closers WITHOUT the re-check of `closed` under the write lock ("closed by a concurrent call in the
-   meantime"): two closers that have both passed the first check - the second one unregisters again and calls close()
-   on the nil channel: panic *)
-Example C13_concurrent_close_unchecked_refuted :
-  let s := crun_window false false 2 in
-  window_reached false false 2 = true /\ c_panic s = true /\ c_unregs s = 2 /\ c_pcs s = [CDone 0; CDone (-1)].
+(* without the compare-and-swap (the code before commit 650fc05): two closers that have both passed the first check
+   both write a teardown packet (with header type and packet number of the channel unguarded); the re-check under the
+   write lock still keeps the second one from tearing down twice ... *)
+Example C13_concurrent_close_unguarded_refuted :
+  let s := crun_window false true false 2 in
+  c_pcs (cwindow false true false 2) = [CLockReq; CLockReq] /\ c_teardowns s = 2 /\ c_pcs s = [CDone 0; CDone 2] /\ c_panic s = false.
 Proof. vm_compute. repeat split; reflexivity. Qed.
 
-(* non-vacuity: three closers, all in the window (teardown written, lock not yet requested), then round robin *)
+(* ... and without that re-check as well the second one unregisters again and calls close() on the nil channel: panic *)
+Example C13_concurrent_close_unchecked_refuted :
+  let s := crun_window false false false 2 in
+  c_panic s = true /\ c_unregs s = 2 /\ c_teardowns s = 2 /\ c_pcs s = [CDone 0; CDone (-1)].
+Proof. vm_compute. repeat split; reflexivity. Qed.
+
+(* non-vacuity: three closers as far as each gets while the teardown packet is held by the transport (one is in the
+   write, two have returned), then round robin *)
 Example C13_concurrent_close_example :
-  let s := crun_window true false 3 in
-  window_reached true false 3 = true /\ all_returned s = true /\ c_pcs s = [CDone 0; CDone 2; CDone 2] /\
-  c_teardowns s = 3 /\ c_unregs s = 1 /\ c_panic s = false.
+  let s := crun_window true true false 3 in
+  c_pcs (cwindow true true false 3) = [CLockReq; CDone 2; CDone 2] /\ all_returned s = true /\
+  c_pcs s = [CDone 0; CDone 2; CDone 2] /\ c_teardowns s = 1 /\ c_unregs s = 1 /\ c_panic s = false.
 Proof. vm_compute. repeat split; reflexivity. Qed.
 
 (* (4) Conn.Close.  Under every schedule, once Conn.Close has returned (it only does so through Channel.Close,
